@@ -358,6 +358,83 @@ def run(ctx):
                   "a frame of exactly %d + announced length bytes is accepted" % hsz,
                   "GetHeader demands size >= %s + announced payload length where the TECMP header takes %d bytes: a frame that ends exactly with its "
                   "payload yields no packet" % (best, hsz))
+    # ---- R6b the dispatchers between GetHeader and the typed payload constructors decide by type: a condition on the size in one of them may
+    # not demand more than the smallest payload that can be built behind it needs (each typed constructor judges its own size)
+    from rules.decoder_rules import _linear as _lin2
+    from cmpverif.accessors import header_view_record
+    nsz = 0
+    for f in sorted(fb.all_functions(), key=lambda z: z.name):
+        if not f.name.startswith(TD) or f.body is None or f.name in (TD + "GetHeader", TD + "GetInterfacePayload", TD + "Decode"):
+            continue
+        szp = [q["decl"] for q in f.params if q["t"].get("k") == "int" and (q["t"].get("bits") or 0) == 64 and not q["t"].get("sg")]
+        if not szp:
+            continue
+        nsz += 1
+        built = set()
+        for h in [f] + [fb.functions[k] for k in fb.reachable_from([f]) if k in fb.functions]:
+            for x in (h.nodes() if h.body is not None else []):
+                if x.get("k") == "construct" and (x.get("rec") or "").startswith("TECMP::") and (x.get("rec") or "").endswith("Payload") and len(x.get("args", [])) >= 2:
+                    built.add(x["rec"])
+        need = []
+        for rec in sorted(built):
+            try:
+                need.append(fb.record(header_view_record(fb, rec))["size"])
+            except Broken:
+                pass
+        least = min(need) if need else 0
+        worst = None
+
+        def size_reads(e, f=f):
+            """size parameters the value of e is computed from in place (handing the size on to a callee is not a condition on it)"""
+            out = set()
+            st = [facts.expand(f, e)]
+            while st:
+                z = st.pop()
+                if isinstance(z, list):
+                    st.extend(z)
+                    continue
+                if not isinstance(z, dict):
+                    continue
+                if z.get("k") == "construct" or (z.get("k") == "call" and (fb.resolve_call(z) is not None or "obj" in z)):
+                    if z.get("k") == "call" and "obj" in z:
+                        st.append(z["obj"])
+                    continue
+                if z.get("k") == "ref" and z.get("decl") in szp:
+                    out.add(z["decl"])
+                for kk, v in z.items():
+                    if kk not in facts.NONCHILD_KEYS and isinstance(v, (dict, list)):
+                        st.append(v)
+            return out
+        for x in f.nodes():
+            if x.get("k") not in ("if", "while", "for", "do", "cond"):
+                continue
+            cond = x.get("cond") if x.get("k") != "cond" else x.get("c")
+            if not isinstance(cond, dict) or not size_reads(cond):
+                continue
+            for a in facts.conjuncts(cond, True, f) + facts.conjuncts(cond, False, f):
+                if a[0] != "cmp" or not (size_reads(a[4]) | size_reads(a[5])):
+                    continue
+
+                def sy(z):
+                    return "n" if z.get("k") == "ref" and z.get("decl") in szp else None
+                l, rr = _lin2(f, a[4], sy), _lin2(f, a[5], sy)
+                demanded = None
+                if l is not None and rr is not None:
+                    d = dict(l)
+                    for k2, v in rr.items():
+                        d[k2] = d.get(k2, 0) - v
+                    if set(k2 for k2, v in d.items() if v) <= {"n", 1} and d.get("n") in (1, -1):
+                        c0 = -d.get(1, 0) * d["n"]  # n  op'  c0
+                        demanded = c0 + 1           # whichever side is taken, one of them needs at most c0 + 1 bytes to be on the large side
+                if demanded is None or demanded > least + 1:
+                    worst = worst or (cond, demanded)
+        res.check(worst is None, "C15-R6", "dispatch-size:%s" % f.name.split("::")[-1], (worst[0].get("loc") if worst else f.loc),
+                  "no condition on the size beyond what the smallest payload built behind it needs (%d bytes)" % least,
+                  "%s decides on the size (`%s`) although the smallest payload it can build needs only %d bytes (%s): well-formed messages of "
+                  "that kind which end at the end of the buffer yield no packet" %
+                  (f.name, canon(worst[0])[:80] if worst else "", least, ", ".join(r.split("::")[-1] for r in sorted(built))))
+    if nsz < 4:
+        raise Broken("TECMP dispatchers taking (data, size) not found (%d)" % nsz)
     # ---- R4c a field shorter than the integer it is read into: the bytes the copy does not reach are zero (the value is the field's, not
     # the field's plus whatever the local started with)
     for f in fb.all_functions():
